@@ -11,14 +11,18 @@ EXTENDS AbraGen, Cases, TLCExt
 CONSTANTS Part, NParts     \* the grid is split into NParts slices; this run emits slice Part (0 = everything)
 
 IntVals == <<0, 1, 2, 3, -1, -7, 100>>
-FltVals == << <<0, 0>>, <<1, 0>>, <<5, 1>>, <<-3, 1>>, <<4, 0>>, <<1, 2>> >>      \* n / 2^e
+\* n / 2^e; the pair <<0, -1>> stands for negative zero (outside AbraSem's dyadic model: the forms are then only
+\* compared with each other, which is what the property demands of literal and variable operands)
+FltVals == << <<0, 0>>, <<1, 0>>, <<5, 1>>, <<-3, 1>>, <<4, 0>>, <<1, 2>>, <<0, -1>> >>
 IntOps == <<"+", "-", "*", "/", "%", "^", "<", "<=", ">", ">=", "==", "!=">>
 FltOps == <<"+", "-", "*", "/", "<", "<=", ">", ">=", "==", "!=">>
 BoolOps == <<"and", "or", "==", "!=">>
 Forms == <<"ll", "lv", "vl", "vv", "cl", "cv">>
 IsArith(op) == op \in {"+", "-", "*", "/", "%", "^"}
 
-LitOf(ty, x) == IF ty = "int" THEN I(x) ELSE IF ty = "flt" THEN F(x[1], x[2]) ELSE Bl(x)
+LitOf(ty, x) == IF ty = "int" THEN I(x)
+                ELSE IF ty = "flt" THEN (IF x[2] = -1 THEN [k |-> "neg", e |-> F(0, 0)] ELSE F(x[1], x[2]))
+                ELSE Bl(x)
 \* statements computing `a op b` in the given form and printing the result
 Stmts(ty, op, x, y, form) ==
   LET A == LitOf(ty, x)  B == LitOf(ty, y) IN
